@@ -3,14 +3,16 @@ open Model
 open Sexp
 open Conv
 
-type c16case = { mask : int; uses : bool; base : n list; strict : bool; kind : string; res : n list; probes : (n list * n list) list; ng : int; nm : int }
+type c16case = { mask : int; uses : bool; base : n list; strict : bool; kind : string; res : n list; probes : (n list * n list) list; ng : int; nm : int; twice : bool }
 let parse_case = function
   | L (A "c16" :: m :: u :: b :: st :: A kind :: res :: L ps :: rest) ->
-    let (ng, nm) = match rest with [a; b] -> (int a, int b) | _ -> (0, 0) in
-    { mask = int m; uses = bool u; base = str b; strict = bool st; kind; res = str res; ng; nm;
+    let (ng, nm, twice) = match rest with [a; b] -> (int a, int b, false) | [a; b; t] -> (int a, int b, bool t) | _ -> (0, 0, false) in
+    { twice; mask = int m; uses = bool u; base = str b; strict = bool st; kind; res = str res; ng; nm;
       probes = List.map (function L [m; p] -> (str m, str p) | _ -> failwith "c16: bad probe") ps }
   | x -> failwith ("c16: bad case " ^ to_string x)
 
+(* the base path of the second registration of the same controller: "/zz/" ++ base without its leading slashes *)
+let second_base base = let rec dl = function c :: r when int_of_n c = 47 -> dl r | l -> l in str_of_ascii "/zz/" @ dl base
 let acts_of mask = List.filter (fun a -> (mask lsr (int_of_nat (action_id a))) land 1 = 1) all_actions
 let uses_of c a = if c.uses && List.mem (int_of_nat (action_id a)) [0; 3; 4; 6] then [nat_of_int (10 + int_of_nat (action_id a))] else []
 let outer_mws c = List.init c.ng (fun k -> 50 + k) @ List.init c.nm (fun k -> 60 + k)
@@ -23,9 +25,11 @@ let options_m = str_of_ascii "OPTIONS"
 
 (* routes: (name, methods, path, nhandlers, action) *)
 let observe c (routes : (n list * n list list * n list * int * action) list) =
-  let rows = sort_assoc (List.map (fun (n, ms, p, nh, a) -> (n, (ms, p, nh, a))) routes) in
-  let rsx = List.map (fun (n, (ms, p, nh, _)) -> L [sstr n; slist sstr (sort_strs ms); sstr p; sint nh]) rows in
-  let named = L [A "named"; slist sstr (List.map fst rows)] in
+  (* rows by (name, path): a name registered twice is listed once per path *)
+  let rows = sort_assoc (List.map (fun (n, ms, p, nh, a) -> (n @ [n_of_int 0] @ p, (n, ms, p, nh, a))) routes) in
+  let rsx = List.map (fun (_, (n, ms, p, nh, _)) -> L [sstr n; slist sstr (sort_strs ms); sstr p; sint nh]) rows in
+  let rec uniq = function a :: (b :: _ as r) -> if str_eqb a b then uniq r else a :: uniq r | l -> l in
+  let named = L [A "named"; slist sstr (uniq (List.map (fun (_, (n, _, _, _, _)) -> n) rows))] in
   (* lookups through the router model *)
   let o = { o_strict = c.strict; o_na = true; o_fallback = false; o_caching = false; o_cap = nat_of_int 0; o_intercept = [] } in
   let rt = List.fold_left (fun rt (n, ms, p, _, _) ->
@@ -49,11 +53,17 @@ let model cs =
     let inner = match resource_stmts c.base c.res acts (uses_of c) with
       | [SGroup (p, _, body)] -> [SGroup (p, List.init c.nm (fun k -> nat_of_int (60 + k)), body)]
       | x -> x in
+    let inner2 = if not c.twice then [] else
+        (match resource_stmts (second_base c.base) c.res acts (uses_of c) with
+         | [SGroup (p, _, body)] -> [SGroup (p, List.init c.nm (fun k -> nat_of_int (60 + k)), body)]
+         | x -> x) in
+    let inner = inner @ inner2 in
     let prog = if c.ng > 0 then [SGroup (str_of_ascii "/g", [], SUse (List.init c.ng (fun k -> nat_of_int (50 + k))) :: inner)] else inner in
     match exec_block c.strict prog rinit with
     | Panic -> L [A "regpanic"]
     | Ok st ->
-      let routes = List.map2 (fun r a -> (r.r_name, r.r_methods, r.r_path, List.length r.r_handlers, a)) st.r_routes acts in
+      let acts2 = if c.twice then acts @ acts else acts in
+      let routes = List.map2 (fun r a -> (r.r_name, r.r_methods, r.r_path, List.length r.r_handlers, a)) st.r_routes acts2 in
       observe c routes
 
 let action_path_abs a = (let p = action_path a in match p with x :: _ when int_of_n x = 47 -> p | _ -> n_of_int 47 :: p)
@@ -65,10 +75,12 @@ let spec cs =
     let g0 = nf c.strict (c.base @ c.res) in
     let g = if c.ng > 0 then nf c.strict (str_of_ascii "/g" @ g0) else g0 in
     let acts = acts_of c.mask in
-    let routes = List.map (fun a -> (route_name c.res a, action_methods a,
+    let rows g = List.map (fun a -> (route_name c.res a, action_methods a,
                                      (if c.strict then nf c.strict (g @ nf c.strict (action_path_abs a)) else documented_path g a),
                                      List.length (outer_mws c) + List.length (uses_of c a), a)) acts in
-    observe c routes
+    let g20 = nf c.strict (second_base c.base @ c.res) in
+    let g2 = if c.ng > 0 then nf c.strict (str_of_ascii "/g" @ g20) else g20 in
+    observe c (rows g @ (if c.twice then rows g2 else []))
 
 let judge cs obs =
   let e = try spec cs with Failure m -> L [A "spec-error"; A m] in
